@@ -123,9 +123,15 @@ pub type Float64Index = BTreeIndex<OrderedFloat, NodeId>;
 /// A wrapper around f64 that implements Ord for use in BTreeIndex.
 ///
 /// Since f64 doesn't implement Ord (due to NaN), we need this wrapper.
-/// NaN values are treated as equal to each other.
-#[derive(Debug, Clone, Copy, PartialEq)]
+/// NaN values are treated as equal to each other and greater than every number.
+#[derive(Debug, Clone, Copy)]
 pub struct OrderedFloat(pub f64);
+
+impl PartialEq for OrderedFloat {
+    fn eq(&self, other: &Self) -> bool {
+        self.cmp(other) == std::cmp::Ordering::Equal
+    }
+}
 
 impl Eq for OrderedFloat {}
 
@@ -137,9 +143,12 @@ impl PartialOrd for OrderedFloat {
 
 impl Ord for OrderedFloat {
     fn cmp(&self, other: &Self) -> std::cmp::Ordering {
-        self.0
-            .partial_cmp(&other.0)
-            .unwrap_or(std::cmp::Ordering::Equal)
+        // NaN must not compare Equal to numbers: that is not a total order and a NaN
+        // key would alias every other key of the map.
+        match self.0.partial_cmp(&other.0) {
+            Some(ordering) => ordering,
+            None => self.0.is_nan().cmp(&other.0.is_nan()),
+        }
     }
 }
 
